@@ -613,13 +613,16 @@ func (pool *hostConnPool) connect() (err error) {
 	// add the Conn to the pool
 	verifEvent("p_connect_gate", pool, "", 0, nil)
 	pool.mu.Lock()
-	defer pool.mu.Unlock()
 
 	if pool.closed {
 		verifEvent("p_connect_late", pool, "", 0, nil)
+		pool.mu.Unlock()
+		// Close the late arrival outside the lock (as Close does with the pooled connections):
+		// an error returned by the socket's Close is reported to HandleError, which takes pool.mu.
 		conn.Close()
 		return nil
 	}
+	defer pool.mu.Unlock()
 
 	if conn.Closed() {
 		// The connection was lost between the handshake and here. Its error callback
